@@ -10,6 +10,7 @@
                     parent, every `new Siblings` is handed to assign_children / recursion on the same path
 """
 import json
+import re
 import os
 
 from gsa import facts, ir, paths, summary
@@ -188,6 +189,8 @@ def run(tier, replay=None):
     run_r9(chk, fns)
     run_r10(chk, fns)
     run_r11(chk, fns)
+    run_r12(chk, fns, G, access)
+    run_r13(chk, fns)
 
     # ---- R5 descent guard
     run_r5(chk, [f for f in F.functions if f['inst'] in (0, 2)])
@@ -1137,6 +1140,131 @@ def run_r9(chk, fns):
                    'contains at least the simplex itself, is returned empty' % ir.show(x.get('cond'))[:160],
                    key='R9|cofaces_simplex_range|empty-answer')
     chk.expect_count('R9', 'early empty answers of cofaces_simplex_range', n, 1)
+
+
+def run_r12(chk, fns, G, access):
+    """R12 value-owned: filtration(sh) returns a reference to the value stored in a node, and inserting or removing
+    nodes moves the nodes of a flat_map. Every user-callable function that takes a `const Filtration_value&` and can
+    create or destroy nodes (itself or through callees) works on a copy: each mention of the parameter is the
+    initialiser of a by-value local, or sits in the condition of an early return placed before any call - it is
+    never handed on by reference (`st.insert_simplex(s, st.filtration(sh))` would read a moved or freed value)."""
+    def direct(f):
+        cl = make_classify(f)
+        out = set()
+        if ir.contains(f.get('body'), lambda x: 'CREATE' in cl(x)):
+            out.add('CREATE')
+        if ir.contains(f.get('body'), lambda x: bool({'DESTROY', 'RANGE_ERASE', 'REMOVE_IF'} & set(cl(x)))):
+            out.add('DESTROY')
+        return out
+    may = G.may(direct)
+    n = 0
+    for f in fns:
+        if f.get('body') is None or access.get((f['name'], f['line']), 0) != 0:
+            continue                          # public entry points: the protected / private helpers are reached through them
+        refs = [p_['n'] for p_ in f.get('params', []) if re.match(
+            r'const (typename )?(\w+::)*Filtration_value ?&$', (p_.get('t') or '').strip())]
+        if not refs or not may.get(f['name']):
+            continue
+        for pn in refs:
+            n += 1
+            par = ir.parents(f['body'])
+            bad = None
+            for x in ir.walk(f['body']):
+                if x.get('k') != 'DeclRefExpr' or x.get('n') != pn:
+                    continue
+                ok = False
+                cur = x
+                while id(cur) in par:
+                    up = par[id(cur)]
+                    if up.get('k') == 'VarDecl' and '&' not in (up.get('t') or ''):
+                        ok = True                # copied into a by-value local
+                        break
+                    if up.get('k') == 'IfStmt' and cur is up.get('cond') and ir.contains(
+                            up.get('then'), lambda y: y.get('k') == 'ReturnStmt'):
+                        ok = True                # tested before anything happens
+                        break
+                    if up.get('k') in ('CompoundStmt', 'LambdaExpr'):
+                        break
+                    cur = up
+                if not ok:
+                    bad = x
+                    break
+            chk.ob('R12-value-owned', '%s works on a copy of its reference parameter `%s`' % (f['name'], pn),
+                   '%s:%d' % (rel(f['file']), f['line']), bad is None, '' if bad is None else
+                   'line %s: the reference is used directly (%s); called with filtration(sh) it designates a node that '
+                   'the insertion / removal moves or frees' % (bad.get('l'), ir.show(par.get(id(bad), bad))[:70]),
+                   key='R12|%s|value-owned|%s' % (f['name'], pn))
+    chk.expect_count('R12', 'public structure-changing functions taking a filtration value by reference', n, 4)
+
+
+def run_r13(chk, fns):
+    """R13 dimension from creation: where a function raises `dimension_` to a positive literal, the path has created
+    the node that justifies it (insert_graph: the dimension is 1 because an edge was inserted, not because the graph
+    says it has edges - num_edges() of a graph adaptor counts the underlying graph), and R14: a non-negative value
+    computed from the recursion bookkeeping is only stored on a path that knows the tree has a member (a creation, an
+    iteration over members, an emptiness test): an empty tree has dimension -1."""
+    n13 = n14 = 0
+    for f in fns:
+        if f.get('body') is None or f['name'] not in ('insert_graph', 'expansion'):
+            continue
+        cl0 = make_classify(f)
+
+        def cl(x, cl0=cl0):
+            ev = [e for e in cl0(x) if e == 'CREATE']
+            if ir.is_call(x) and ir.is_this_call(x) and ir.call_name(x) in ('insert_node_', 'siblings_expansion'):
+                ev.append('CREATE')
+            if x.get('k') == 'BinaryOperator' and x.get('op') == '=' and \
+                    ir.show(x['c'][0]).replace('this->', '') == 'dimension_':
+                r = ir.skipcasts(x['c'][1])
+                if r is not None and r.get('k') == 'IntegerLiteral' and int(r.get('v', 0)) >= 1:
+                    ev.append('DIMLIT')
+                elif r is not None and r.get('k') != 'IntegerLiteral':
+                    ev.append('DIMEXPR')
+            return ev
+        ps = paths.enumerate_paths(f, cl, loop_mode='01', keep_conds=True, cap=40000)
+        bad13 = bad14 = None
+        s13 = s14 = False
+        for p in ps:
+            if p.end == 'throw':
+                continue
+            created = nonempty = False
+            for ev in p.events:
+                if ev[0] == '?':
+                    c, pol = ev[1][0], ev[1][1]
+                    if isinstance(c, tuple):
+                        continue
+                    t = ir.show(c) if c.get('k') not in ('CXXForRangeStmt', 'ForStmt') else ''
+                    if c.get('k') in ('CXXForRangeStmt', 'ForStmt') and pol and 'members' in ir.show(
+                            c.get('range') or c.get('cond') or {}):
+                        nonempty = True          # one iteration over members
+                    if ('empty()' in t and not pol) or ('num_vertices' in t and '== 0' in t and not pol):
+                        nonempty = True
+                elif ev[0] == 'CREATE':
+                    created = nonempty = True
+                elif ev[0] == 'DIMLIT':
+                    s13 = True
+                    if not created and bad13 is None:
+                        bad13 = ev[1]
+                elif ev[0] == 'DIMEXPR':
+                    s14 = True
+                    if not nonempty and bad14 is None:
+                        bad14 = ev[1]
+        if s13:
+            n13 += 1
+            chk.ob('R13-dimension-from-creation', '%s raises dimension_ to a positive literal only after creating the '
+                   'node that has this dimension' % f['name'], '%s:%d' % (rel(f['file']), f['line']), bad13 is None,
+                   '' if bad13 is None else 'line %s: `%s` is reached on a path that has created nothing yet: the '
+                   'dimension comes from a count of the input, not from what was inserted' % (
+                       bad13.get('l'), ir.show(bad13)[:40]), key='R13|%s|dimension-from-creation' % f['name'])
+        if s14:
+            n14 += 1
+            chk.ob('R14-empty-dimension', '%s stores a computed dimension only when the tree has a member' % f['name'],
+                   '%s:%d' % (rel(f['file']), f['line']), bad14 is None, '' if bad14 is None else
+                   'line %s: `%s` is stored on a path that never learnt that the tree is not empty: an empty complex '
+                   'ends with a dimension >= 0' % (bad14.get('l'), ir.show(bad14)[:50]),
+                   key='R14|%s|empty-dimension' % f['name'])
+    chk.expect_count('R13', 'literal dimension raises in insert_graph', n13, 1)
+    chk.expect_count('R14', 'computed dimension stores in expansion', n14, 1)
 
 
 def run_r10(chk, fns):
